@@ -440,3 +440,70 @@ def replay(cand):
         if g.shape != want.shape or not np.all(np.isfinite(g)) or not np.allclose(g, want, rtol=2e-4, atol=2e-4):
             bad.append("%s: marginal_ln_likelihood=%s but ln N(y | M mu, C + s^2 I + M Lambda M^T)=%s (rows P,e,omega,M0,s=%s)" % (tag, g.tolist(), want.tolist(), rows.tolist()))
     return {"reproduced": bool(bad), "detail": "; ".join(bad)[:900] or "real build agrees with the closed form"}
+
+
+# ---------------------------------------------------------------------------------------------
+# translation validation (every run): transliterated .pyx == compiled extension on a numeric corpus;
+# staleness of the generated C with respect to the .pyx
+# ---------------------------------------------------------------------------------------------
+
+def extras(tier):
+    return [{"extra": "pyx_vs_compiled"}]
+
+
+def staleness():
+    """every code line of the .pyx must occur in the comments Cython embedded in the generated .c"""
+    import os
+    import re
+    cpath = "/repo/thejoker/src/fast_likelihood.c"
+    if not os.path.exists(cpath):
+        return None, "generated C file not present"
+    ctext = open(cpath, errors="replace").read()
+    missing = []
+    in_doc = False
+    in_extern = False
+    decl = re.compile(r"^(public\s+)?(unsigned\s+)?(int|double|char\*?|object|bint|long|float)\b(\[[^\]]*\])?\s+[\w, ]+(\s*#.*)?$")
+    for ln in open("/repo/thejoker/src/fast_likelihood.pyx").read().splitlines():
+        t = ln.strip()
+        if in_extern:
+            if ln[:1] in (" ", "\t") or not t:
+                continue
+            in_extern = False
+        if t.count('"""') == 1:
+            in_doc = not in_doc
+            continue
+        if in_doc or not t or t.startswith("#") or len(t) < 8 or '"""' in t:
+            continue
+        if t.startswith("cdef extern"):
+            in_extern = True
+            continue
+        if "cimport" in t or decl.match(t):
+            continue
+        if t not in ctext:
+            missing.append(t)
+    return missing, None
+
+
+def extra_run(arg, tier):
+    import os
+    from checks import kernel_conc
+    res = new_result(arg)
+    seed = int(os.environ.get("VERIF_SEED", "0") or 0)
+    out = kernel_conc.run(seed % 5)
+    res["conformance_runs"] = out["runs"]
+    res["vcs"] += 1
+    res["nontrivial"] += 1
+    res["notes"].append("pyx-interp vs compiled extension: %d runs, max rel ll diff %.2e, max (a,A) diff %.2e" % (out["runs"], out["max_ll_diff"], out["max_aA_diff"]))
+    missing, why = staleness()
+    if missing is None:
+        res["notes"].append("staleness test skipped: " + why)
+    elif missing:
+        res["notes"].append("compiled artefact stale with respect to the .pyx (Cython unavailable: cannot regenerate): %d source lines not in the generated C, e.g. %r" % (len(missing), missing[0][:80]))
+    if out["problems"]:
+        # the source as written and the shipped binary disagree: both verdicts are reported, the symbolic one speaks about the .pyx
+        res["error"] = "transliterated .pyx and compiled extension disagree numerically: %s" % "; ".join(out["problems"])[:400]
+    else:
+        res["unsat"] += 1
+        res["samples"].append({"vc": "C01.translation_validation", "result": "agree", "runs": out["runs"], "max_rel_diff": out["max_ll_diff"]})
+        res["twin_ok"] = True
+    return res
